@@ -22,11 +22,11 @@ FORBIDDEN = re.compile(r"\b(sorry|admit|native_decide|bv_decide|implemented_by|u
 PROPS = {
     "C01": dict(modules=["PolytuneModel.Thm.C01", "PolytuneModel.Thm.C01batches", "PolytuneModel.Thm.GenArith"], theorems=["PolytuneModel.C01_batches_agree_gen", "PolytuneModel.Gen_chunkSizeIter_eq", "PolytuneModel.C01_batches_agree", "PolytuneModel.C01_batches_cover", "PolytuneModel.C01_honest_correct", "PolytuneModel.step_inv", "PolytuneModel.eval_label"], drive="C01", also=["C01m", "C19m"], cases=dict(quick=60, thorough=600),
                 rule="generated register circuits x inputs x n x p_eval x p_out x tmp_dir x capacity x schedule, plus AND chains on both sides of the 1000-gate batch boundary; non-trivial = has an AND gate or register reuse; distinct by (circuit, p_eval, p_out)"),
-    "C02": dict(modules=["PolytuneModel.Thm.C03", "PolytuneModel.Thm.C02agree"], theorems=["PolytuneModel.C02_agreement", "PolytuneModel.openReg_detect_or_extract", "PolytuneModel.openOutput_sound", "PolytuneModel.C02_cex_missing_output_share", "PolytuneModel.C02_fixed_rejects_missing"], drive="C03", only="C02", cases=dict(quick=1, thorough=1),
+    "C02": dict(modules=["PolytuneModel.Thm.C03", "PolytuneModel.Thm.C02agree", "PolytuneModel.Thm.Sites"], theorems=["PolytuneModel.C03_check_sites_present", "PolytuneModel.C02_agreement", "PolytuneModel.openReg_detect_or_extract", "PolytuneModel.openOutput_sound", "PolytuneModel.C02_cex_missing_output_share", "PolytuneModel.C02_fixed_rejects_missing"], drive="C03", only="C02", cases=dict(quick=1, thorough=1),
                 rule="one forged field of one online message per run (13 fields x adversary role x n in {2,3} x 3 inputs); oracle: an honest Ok is f(x_H, x') for some x'; distinct by (n, phase, field, role)"),
-    "C03": dict(modules=["PolytuneModel.Thm.C03"], theorems=["PolytuneModel.macCheck_detect_or_extract", "PolytuneModel.C03_output_label", "PolytuneModel.openReg_detect_or_extract"], drive="C03", also=["C03m"], only="C03", cases=dict(quick=40, thorough=400),
+    "C03": dict(modules=["PolytuneModel.Thm.C03", "PolytuneModel.Thm.Sites"], theorems=["PolytuneModel.C03_check_sites_present", "PolytuneModel.macCheck_detect_or_extract", "PolytuneModel.C03_output_label", "PolytuneModel.openReg_detect_or_extract"], drive="C03", also=["C03m"], only="C03", cases=dict(quick=40, thorough=400),
                 rule="one forged authenticated field per run; oracle: the consumer returns Err; distinct by (n, phase, field, role)"),
-    "C04": dict(modules=["PolytuneModel.Thm.C04", "PolytuneModel.Thm.C04laand"], theorems=["PolytuneModel.C04_laand_check_value", "PolytuneModel.C04_laand_zero", "PolytuneModel.C04_laand_detect", "PolytuneModel.C04.C04_cex_cm_unchecked", "PolytuneModel.C04.C04_dm_bound", "PolytuneModel.C04.C04_open_is_committed", "PolytuneModel.C04.C04_cex_challenge_predetermined"], drive="C04", also=["C04p", "C04m"], cases=dict(quick=30, thorough=200),
+    "C04": dict(modules=["PolytuneModel.Thm.C04", "PolytuneModel.Thm.C04laand", "PolytuneModel.Thm.Sites"], theorems=["PolytuneModel.C04_check_sites_present", "PolytuneModel.C04_laand_check_value", "PolytuneModel.C04_laand_zero", "PolytuneModel.C04_laand_detect", "PolytuneModel.C04.C04_cex_cm_unchecked", "PolytuneModel.C04.C04_dm_bound", "PolytuneModel.C04.C04_open_is_committed", "PolytuneModel.C04.C04_cex_challenge_predetermined"], drive="C04", also=["C04p", "C04m"], cases=dict(quick=30, thorough=200),
                 rule="one flipped payload bit per preprocessing message (18 phases x occurrence x recipients x n), commit-before-reveal under seeded schedules, challenge predictor from wire openings vs probes; distinct by (n, phase, occurrence) / schedule"),
     "C05": dict(modules=["PolytuneModel.Thm.C05"], theorems=["PolytuneModel.C05_non_output_silent", "PolytuneModel.C05_output_party_messages"], drive="C09", cases=dict(quick=40, thorough=400),
                 rule="recorded messages per ordered pair vs model pattern; nothing to a non-output party after input processing; distinct by (circuit, p_eval, p_out)"),
@@ -34,7 +34,7 @@ PROPS = {
                 rule="repeated honest executions with taps; balance of revealed^others for input 0 and 1 (6 sigma), fresh delta and mask vector per party and run, 128-bit canary; distinct by run"),
     "C07": dict(modules=["PolytuneModel.Thm.C06C07"], theorems=["PolytuneModel.C07_mac_view_independent", "PolytuneModel.C07_ashare_opening_independent", "PolytuneModel.C07_cex_ashare_offset", "PolytuneModel.C07_peers_can_compute"], drive="C07", also=["C07m"], only="C07", cases=dict(quick=100, thorough=1000),
                 rule="global key (tap) searched in all sent bytes (both byte orders) and as XOR of two aligned 128-bit fields; distinct by run"),
-    "C08": dict(modules=["PolytuneModel.Thm.C08"], theorems=["PolytuneModel.decVec_bounded", "PolytuneModel.decN_length", "PolytuneModel.C08_ashare_no_panic", "PolytuneModel.C08_dvalue_no_panic", "PolytuneModel.C08_cex_ashare_dm_short", "PolytuneModel.C08_cex_dvalue_short"], drive="C08", cases=dict(quick=150, thorough=1),
+    "C08": dict(modules=["PolytuneModel.Thm.C08", "PolytuneModel.Thm.Sites"], theorems=["PolytuneModel.C08_length_guards_present", "PolytuneModel.decVec_bounded", "PolytuneModel.decN_length", "PolytuneModel.C08_ashare_no_panic", "PolytuneModel.C08_dvalue_no_panic", "PolytuneModel.C08_cex_ashare_dm_short", "PolytuneModel.C08_cex_dvalue_short"], drive="C08", cases=dict(quick=150, thorough=1),
                 rule="every adversary message index x 8 byte-level classes (sampled in quick), structure-aware classes on nested vectors, crash after k-th message; oracle: Ok or Err, no panic, no hang, no allocation > 64x bytes + 1 MiB; distinct by (victim role, phase, class, outcome)"),
     "C09": dict(modules=["PolytuneModel.Thm.C09"], theorems=["PolytuneModel.C09_len_value_independent", "PolytuneModel.C09_len_formula", "PolytuneModel.C09_shares_msg", "PolytuneModel.C09_masked_msg", "PolytuneModel.C09_labels_msg", "PolytuneModel.C09_row_len"], drive="C09", cases=dict(quick=40, thorough=400),
                 rule="two executions per public configuration (different inputs and coins); per ordered pair the (phase,len) sequence vs the model's pattern of the public parameters; distinct by (circuit, p_eval, p_out)"),
@@ -45,11 +45,11 @@ PROPS = {
     "C12": dict(modules=["PolytuneModel.Thm.C12generic", "PolytuneModel.Thm.C12rounds", "PolytuneModel.Thm.C12phases", "PolytuneModel.Thm.C12", "PolytuneModel.Thm.C12det", "PolytuneModel.Thm.C12phasesDet"], theorems=["PolytuneModel.phasedOf_ok", "PolytuneModel.C12_polytune_sequential", "PolytuneModel.Sched.demo_ok", "PolytuneModel.Sched.C12_run_canonical", "PolytuneModel.Sched.C12_phased_schedule_independent", "PolytuneModel.C12_polytune", "PolytuneModel.C12_same_object", "PolytuneModel.Sched.min_undone_send_enabled", "PolytuneModel.Sched.min_undone_recv_enabled", "PolytuneModel.Sched.rank_increases", "PolytuneModel.Sched.C12_no_deadlock", "PolytuneModel.Sched.C12_phased_no_deadlock", "PolytuneModel.Sched.C12_cex_recv_before_send"], drive="C01", also=["C12o"], cases=dict(quick=60, thorough=600),
                 rule="real mpc futures under round-robin / seeded random / starving schedules, capacities 1, 2, 1024; exact deadlock detection; at most one outstanding send and receive per peer; distinct by (circuit, p_eval, p_out) x schedule"),
     "C13": dict(modules=["PolytuneModel.Thm.C13", "PolytuneModel.Thm.C13all2", "PolytuneModel.Thm.C13reach"], thorough_modules=["PolytuneModel.Thm.C13term", "PolytuneModel.Thm.C13n3"], thorough_theorems=["PolytuneModel.Server.C13_n2_terminates", "PolytuneModel.Server.C13_n3_leader1", "PolytuneModel.Server.C13_n3_leader0_consts"], theorems=["PolytuneModel.Server.C13_n2_all_setups", "PolytuneModel.Server.C13_n2_reachable_ok", "PolytuneModel.Server.closed_covers", "PolytuneModel.Server.C13_n2_leader0", "PolytuneModel.Server.C13_n2_leader1_consts", "PolytuneModel.Server.C13_n2_both_consts_no_dest", "PolytuneModel.Server.C13_n2_complete", "PolytuneModel.Server.C13_n2_reaches_end"], server="C13", cases=dict(quick=24, thorough=200), rule="compatible policies, seeded delivery orders of validate/run/consts RPCs, leaders, destinations, constants; every observed actor step replayed through the Lean step function; distinct by delivery order"),
-    "C14": dict(modules=["PolytuneModel.Thm.C14"], theorems=["PolytuneModel.Server.C14_no_disturb", "PolytuneModel.Server.C14_msg_no_panic", "PolytuneModel.Server.C14_cex_msg_oob", "PolytuneModel.Server.C14_cex_dup_schedule", "PolytuneModel.Server.C14_cex_illtyped_dup"], server="C14", cases=dict(quick=40, thorough=300), rule="one stray / malformed command injected at a seeded point of a normal run; distinct by (command, point, n)"),
+    "C14": dict(modules=["PolytuneModel.Thm.C14", "PolytuneModel.Thm.Sites"], theorems=["PolytuneModel.C14_reply_sites_present", "PolytuneModel.Server.C14_no_disturb", "PolytuneModel.Server.C14_msg_no_panic", "PolytuneModel.Server.C14_cex_msg_oob", "PolytuneModel.Server.C14_cex_dup_schedule", "PolytuneModel.Server.C14_cex_illtyped_dup"], server="C14", cases=dict(quick=40, thorough=300), rule="one stray / malformed command injected at a seeded point of a normal run; distinct by (command, point, n)"),
     "C15": dict(modules=["PolytuneModel.Thm.C15"], theorems=["PolytuneModel.Cancel.C15_current_all_schedules", "PolytuneModel.Cancel.C15_current_sound", "PolytuneModel.Cancel.C15_current_at_most_one", "PolytuneModel.Cancel.C15_current_live", "PolytuneModel.Cancel.C15_fixpoint", "PolytuneModel.Cancel.C15_cex_notify_self", "PolytuneModel.Cancel.C15_cex_pinned_stuck"], server="C15", cases=dict(quick=60, thorough=400), rule="cancel injected at quiescence after k deliveries or a few yields after a delivery; distinct by (point, victim, n, leader)"),
-    "C16": dict(modules=["PolytuneModel.Thm.C14"], theorems=["PolytuneModel.Server.C16_mismatch_after_schedule", "PolytuneModel.Server.C16_mismatch_before_schedule", "PolytuneModel.Server.C16_illtyped"], server="C16", cases=dict(quick=24, thorough=200), rule="program / leader mismatch or ill-typed program at one follower, both arrival orders; distinct by (kind, n, leader, follower, order)"),
+    "C16": dict(modules=["PolytuneModel.Thm.C14", "PolytuneModel.Thm.Sites"], theorems=["PolytuneModel.C16_reply_sites_present", "PolytuneModel.Server.C16_mismatch_after_schedule", "PolytuneModel.Server.C16_mismatch_before_schedule", "PolytuneModel.Server.C16_illtyped"], server="C16", cases=dict(quick=24, thorough=200), rule="program / leader mismatch or ill-typed program at one follower, both arrival orders; distinct by (kind, n, leader, follower, order)"),
     "C17": dict(modules=["PolytuneModel.Thm.C14", "PolytuneModel.Thm.C17", "PolytuneModel.Thm.C17net"], theorems=["PolytuneModel.Sem.C17_bound", "PolytuneModel.Sem.C17_all_released", "PolytuneModel.Server.C17_n2_failure_ok", "PolytuneModel.Server.C17_n2_failures_explored", "PolytuneModel.Server.C17_cex_run_fail_net", "PolytuneModel.Server.C17_cex_consts_fail_net", "PolytuneModel.Server.C17_cex_run_fail_no_output"], server="C17", cases=dict(quick=16, thorough=120), rule="deterministic corpus (RPC kind x leader x destinations) then seeded: first validate / run / consts RPC fails, the CALLER must end, be notified and give its permit back; batches of 2..8 policies sharing the hosts' semaphores with concurrency 1..3: permit holders per host never exceed the concurrency, budget restored; distinct by (rpc, n, leader, destinations) / batch shape"),
-    "C18": dict(modules=["PolytuneModel.Thm.C18"], theorems=["PolytuneModel.validateArgs_ok_iff", "PolytuneModel.C18_reject_own_index", "PolytuneModel.C18_reject_peval", "PolytuneModel.C18_reject_pout_index", "PolytuneModel.C18_reject_input_len", "PolytuneModel.C18_reject_invalid_circuit", "PolytuneModel.C18_reject_empty_pout", "PolytuneModel.C18_reject_pout_repeats", "PolytuneModel.C18_accepted_pout_ok", "PolytuneModel.C18_input_after_gate_rejected"], drive="C18", cases=dict(quick=60, thorough=600),
+    "C18": dict(modules=["PolytuneModel.Thm.C18", "PolytuneModel.Thm.Sites"], theorems=["PolytuneModel.C18_guard_sites_present", "PolytuneModel.validateArgs_ok_iff", "PolytuneModel.C18_reject_own_index", "PolytuneModel.C18_reject_peval", "PolytuneModel.C18_reject_pout_index", "PolytuneModel.C18_reject_input_len", "PolytuneModel.C18_reject_invalid_circuit", "PolytuneModel.C18_reject_empty_pout", "PolytuneModel.C18_reject_pout_repeats", "PolytuneModel.C18_accepted_pout_ok", "PolytuneModel.C18_input_after_gate_rejected"], drive="C18", cases=dict(quick=60, thorough=600),
                 rule="one invalid argument per single-party run (10 classes), repeated output indices (all parties), validate-ok-but-not-wf circuits (5 classes); distinct by (class, circuit, indices)"),
     "C19": dict(modules=["PolytuneModel.Thm.C19", "PolytuneModel.Thm.GenArith"], theorems=["PolytuneModel.Buf.C19_refines", "PolytuneModel.Buf.C19_from_new", "PolytuneModel.chunksOf_flatten", "PolytuneModel.Gen_chunkSizeIter_eq"], drive="C19", also=["C19m"], cases=dict(quick=400, thorough=6000),
                 rule="seeded op sequences (non-empty appends, partial/full item reads, chunked reads, len<=12) on both real variants and the model; non-trivial = a read after an append; distinct by op sequence"),
@@ -97,11 +97,21 @@ def main():
     prop = sys.argv[1]; tier = os.environ.get("VERIF_TIER", "quick")
     if "--tier" in sys.argv: tier = sys.argv[sys.argv.index("--tier") + 1]
     seed = int(os.environ.get("VERIF_SEED", "1")); t0 = time.time(); cfg = PROPS[prop]
+    if "--replay" in sys.argv:
+        # a replay file records (property, seed, tier) and the failing inputs / broken obligations; every random choice of the harness derives from
+        # the seed, so re-running the check with the recorded seed and tier re-executes exactly the recorded cases against the current tree
+        rp = json.loads(pathlib.Path(sys.argv[sys.argv.index("--replay") + 1]).read_text())
+        if rp.get("property") != prop: print(f"replay file is for {rp.get('property')}, not {prop}"); sys.exit(2)
+        seed, tier = int(rp.get("seed", seed)), rp.get("tier", tier)
+        print(f"replaying {prop} with seed={seed} tier={tier}; recorded: " + json.dumps((rp.get("failing_inputs") or rp.get("no_longer_checks") or [None])[0])[:600])
+    # one build at a time: concurrent checks share the lake build directory and the cargo target directories
+    import fcntl
+    lock = open(ROOT / ".build.lock", "w"); fcntl.flock(lock, fcntl.LOCK_EX)
     if tier == "thorough":      # slow kernel evaluations live in separate modules
         cfg["modules"] = cfg["modules"] + cfg.get("thorough_modules", []); cfg["theorems"] = cfg["theorems"] + cfg.get("thorough_theorems", [])
     broken = []           # broken proof obligations / correspondence
     # 1. translator: regenerate the Gen/ definitions from the current sources (written only when the text changes, so lake rebuilds only dependents of a change)
-    for script, arg, target, must in [("rs2lean.py", f"{REPO}/src/block/gf128.rs", "Gf128.lean", "def clmul128"), ("rs2lean_nat.py", f"{REPO}", "Arith.lean", "def bucketSize")]:
+    for script, arg, target, must in [("rs2lean.py", f"{REPO}/src/block/gf128.rs", "Gf128.lean", "def clmul128"), ("rs2lean_nat.py", f"{REPO}", "Arith.lean", "def bucketSize"), ("checksites.py", f"{REPO}", "Sites.lean", "def errSites")]:
         rct, outt, errt = sh(f"python3-vt {ROOT}/translator/{script} {arg}", timeout=300)
         if rct != 0 or must not in outt: broken.append({"kind": "translator", "what": f"{script} failed on the current sources (construct outside the accepted subset, or item missing)", "log": (outt + errt)[-800:]})
         else:
@@ -118,6 +128,7 @@ def main():
     hdir = ROOT / ("harness-server" if "server" in cfg else "harness")
     shutil.copy(REPO / "Cargo.lock", hdir / "Cargo.lock")
     rc2, out2, err2 = sh("cargo build --release --offline", cwd=hdir, timeout=3000, env={"CARGO_NET_OFFLINE": "true"})
+    fcntl.flock(lock, fcntl.LOCK_UN)
     if rc2 != 0: broken.append({"kind": "harness-build", "what": "harness does not build against /repo", "log": err2[-1500:]})
     else:
         n = cfg["cases"][tier]; extra = " --thorough" if tier == "thorough" else ""
